@@ -246,6 +246,9 @@ func runC13(c *Check) {
 	c.Doc("C13-R11", "LS (guarded-by): in every struct of the repository that owns a mutex (other than the block manager, C13-R1), a field that some function writes with the mutex held is accessed with that mutex held everywhere outside construction (locally or at every call site of the enclosing helper): a lock-free read or write of such a field races with the guarded writers.")
 	ruleStructLocksets(c, "C13-R11", []*Prog{p, c.Mod(ModSingle), c.Mod(ModDA), c.Mod(ModTestapp), c.Mod(ModBased)})
 	c.MinInstances("C13-R11", 8)
+	c.Doc("C13-R12", "CS: no package-level variable of the repository's packages is written after initialisation (store, element store, map update), and none holds a stateful object (interface value other than error, pointer to another module's type, not built by a constructor known to be safe for concurrent use) on which methods are invoked at run time: package-level state is shared by every worker loop and library goroutine.")
+	ruleNoSharedPackageState(c, "C13-R12", []*Prog{p, c.Mod(ModSingle), c.Mod(ModDA), c.Mod(ModTestapp), c.Mod(ModBased)})
+	c.MinInstances("C13-R12", 20)
 }
 
 // blockingOp classifies node n. kind == "" if it is not a blocking operation.
